@@ -25,7 +25,18 @@ def unhexAux : List Char → List Byte → List Byte
     | _, _ => acc.reverse
   | _, acc => acc.reverse
 
-def unhex (s : String) : List Byte := if s = "-" then [] else unhexAux s.toList []
+/-- generated payload `@seed:n`: byte k is `97 + ((7·k² + 13·k + seed) mod 1009) mod 5` (the harness
+    computes the same bytes; keeps scripts with large buffers small) -/
+def genBytes (seed n : Nat) : List Byte :=
+  (List.range n).map fun k => UInt8.ofNat (97 + ((7 * k * k + 13 * k + seed) % 1009) % 5)
+
+def unhex (s : String) : List Byte :=
+  if s = "-" then []
+  else if s.startsWith "@" then
+    match (s.drop 1).toString.splitOn ":" with
+    | [a, b] => genBytes (a.toNat?.getD 0) (b.toNat?.getD 0)
+    | _ => []
+  else unhexAux s.toList []
 
 def hexChar (n : Nat) : Char := if n < 10 then Char.ofNat (48 + n) else Char.ofNat (87 + n)
 
